@@ -347,9 +347,11 @@ class CodeBuilder:
     def _add_unpack_method_lines_lazy(self, method_name: str) -> None:
         if self.default_dialect is not None:
             self.add_type_modules(self.default_dialect)
+        self.ensure_object_imported(self.initial_type_args, "__type_args")
         self.add_line(
             f"CodeBuilder("
             f"cls,"
+            f"type_args=__type_args,"
             f"first_method='{method_name}',"
             f"allow_postponed_evaluation=False,"
             f"format_name='{self.format_name}',"
@@ -370,6 +372,7 @@ class CodeBuilder:
             config.lazy_compilation
             and self.allow_postponed_evaluation
             and self.is_nailed
+            and self.dialect is None
         ):
             self._add_unpack_method_lines_lazy(method_name)
             return
@@ -379,6 +382,7 @@ class CodeBuilder:
             if (
                 not self.allow_postponed_evaluation
                 or not config.allow_postponed_evaluation
+                or self.dialect is not None
             ):
                 raise
             self._add_unpack_method_lines_lazy(method_name)
@@ -807,9 +811,11 @@ class CodeBuilder:
     def _add_pack_method_lines_lazy(self, method_name: str) -> None:
         if self.default_dialect is not None:
             self.add_type_modules(self.default_dialect)
+        self.ensure_object_imported(self.initial_type_args, "__type_args")
         self.add_line(
             "CodeBuilder("
             "self.__class__,"
+            "type_args=__type_args,"
             f"first_method='{method_name}',"
             "allow_postponed_evaluation=False,"
             f"format_name='{self.format_name}',"
@@ -827,6 +833,7 @@ class CodeBuilder:
             config.lazy_compilation
             and self.allow_postponed_evaluation
             and self.is_nailed
+            and self.dialect is None
         ):
             self._add_pack_method_lines_lazy(method_name)
             return
@@ -836,6 +843,7 @@ class CodeBuilder:
             if (
                 not self.allow_postponed_evaluation
                 or not config.allow_postponed_evaluation
+                or self.dialect is not None
             ):
                 raise
             self._add_pack_method_lines_lazy(method_name)
